@@ -653,7 +653,7 @@ def _chunk(job):
         res["closed"] += 1
         if ms:
             res["last"]["AddPort" if ms[-1]["kind"] == "port" else "CloseSub"] += 1
-        o = dict(opts)
+        o = {k: v for k, v in opts.items() if k != "demo"}
         fp = hash(tree_repr(ms)) & 0xFFFFFFFF
         o["metadata"] = opts["metadata_every"] > 0 and fp % opts["metadata_every"] == 0
         t = test_state(ms, exp, o)
@@ -682,8 +682,15 @@ def _chunk(job):
 
 def run_tlc(ctx, name, cfg_text, opts):
     dump = os.path.join(ctx.tmp, "dump_" + name)
-    r = ctx.tlc("Wiring", stage="mc/" + name, cfg_text=cfg_text, workers=opts.get("workers", 4),
-                args=("-deadlock", "-dump", dump) + (("-coverage", "1") if opts.get("coverage") else ()))
+    kw = {}
+    module = "Wiring"
+    if opts.get("demo") is not None:
+        # the same model, plus the expectation of the binding-demo tree printed at start-up (saves a JVM)
+        module = "WiringDemo"
+        kw["extra_files"] = {"WiringDemo.tla": "---- MODULE WiringDemo ----\nEXTENDS Wiring\nDemo == %s\n"
+                             "ASSUME PrintT(Expect(Demo))\n====\n" % tlaval.to_tla(_tla_ms(opts["demo"]))}
+    r = ctx.tlc(module, stage="mc/" + name, cfg_text=cfg_text, workers=opts.get("workers", 4),
+                args=("-deadlock", "-dump", dump) + (("-coverage", "1") if opts.get("coverage") else ()), **kw)
     if opts.get("coverage"):
         ctx.require_actions(r, ["AddPort", "OpenSub", "CloseSub"], "mc/" + name)
     return r, dump + ".dump"
@@ -743,6 +750,11 @@ def replay_dump(ctx, name, r, path, opts):
     return tot, stats, fps
 
 
+DEMO_MS = ({"name": "p", "flow": "In", "dims": (), "kind": "sig", "w": 0, "s": False, "init": 0,
+            "sub": {"fl": False, "ms": ({"name": "a", "flow": "In", "dims": (2,), "kind": "port", "w": 2, "s": True,
+                                         "init": 1, "sub": {"fl": False, "ms": ()}},)}},)
+
+
 def plans_for(th):
     """(name, cfg, options).  P = port variants, S = sub-signature variants per member slot."""
     P = []
@@ -751,11 +763,11 @@ def plans_for(th):
               {"metadata_every": 2 if th else 8}))
     # ... and every single-point corruption of every kind of leaf
     P.append(("leaves-corrupt", cfg(1, 1, 1, "DimsAll", "DimsNone", "AttrsAll", "FlipsNo", variants=True, triples=True),
-              {"metadata_every": 1, "workers": 2}))
+              {"metadata_every": 1, "workers": 2, "demo": DEMO_MS}))
     if not th:
         # nesting x dimensioned sub-signatures x In/Out x explicit flips, with all corruptions
         P.append(("nested-corrupt", cfg(2, 2, 2, "DimsTwo", "DimsAll", "AttrsOne", "FlipsBoth", variants=True),
-                  {"metadata_every": 2, "workers": 4}))
+                  {"coverage": True, "metadata_every": 2, "workers": 4}))
         P.append(("nested", cfg(3, 2, 3, "DimsNone", "DimsTwo", "AttrsOne", "FlipsBoth"),
                   {"metadata_every": 16, "workers": 8}))
     else:
@@ -764,7 +776,7 @@ def plans_for(th):
         P.append(("nested-corrupt", cfg(3, 2, 3, "DimsNone", "DimsTwo", "AttrsFew", "FlipsBoth", variants=True),
                   {"metadata_every": 8, "workers": 8}))
         P.append(("nested-corrupt-dims", cfg(2, 2, 2, "DimsTwo", "DimsAll", "AttrsFew", "FlipsBoth", variants=True, triples=True),
-                  {"metadata_every": 1, "workers": 4}))
+                  {"coverage": True, "metadata_every": 1, "workers": 4}))
         P.append(("nested", cfg(3, 2, 4, "DimsNone", "DimsTwo", "AttrsOne", "FlipsBoth"),
                   {"metadata_every": 64, "workers": 8}))
         P.append(("nested-attrs", cfg(2, 2, 3, "DimsAll", "DimsAll", "AttrsFew", "FlipsBoth"),
@@ -783,38 +795,41 @@ def run(ctx):
     schema_valid({"interface": {"members": {}, "annotations": {}}})
     plans = [(n, c, {"sim_all": th, **o}) for n, c, o in plans_for(th)]
     fps = set()
-    with ThreadPoolExecutor(2) as ex:
+    demo_ms = DEMO_MS
+    demo = None
+
+    def small_runs():
+        # mutants: seeded specification errors must violate the theorems
+        ctx.tlc("Wiring", stage="mutant/no_flip_into_dimensioned_sub", workers=2, count=False,
+                cfg_text=cfg(2, 2, 2, "DimsTwo", "DimsTwo", "AttrsOne", "FlipsNo", mutant="no_flip_into_dimensioned_sub",
+                             invariants=["FlipReverses"]),
+                args=("-deadlock",), expect_violation="FlipReverses")
+        ctx.tlc("Wiring", stage="mutant/first_argument_drives", workers=2, count=False,
+                cfg_text=cfg(1, 2, 1, "DimsTwo", "DimsNone", "AttrsOne", "FlipsNo", mutant="first_argument_drives",
+                             invariants=["PermInvariant"]),
+                args=("-deadlock",), expect_violation="PermInvariant")
+
+    with ThreadPoolExecutor(3) as ex:
+        small = ex.submit(small_runs)
         futs = [ex.submit(run_tlc, ctx, n, c, o) for n, c, o in plans]
         for (name, text, opts), fu in zip(plans, futs):
             r, path = fu.result()
+            if opts.get("demo") is not None:
+                vals = [v for v in r.printed() if v.lstrip().startswith("[") and "flatS" in v]
+                if not vals:
+                    raise MachineryError("binding demo: TLC printed no expectation:\n" + r.out[-1500:])
+                demo = tlaval.parse(vals[0])
+                for k in ("vars", "cvars", "ovars"):      # the demonstration uses the compliant tuples only
+                    demo[k] = frozenset()
             tot, stats, f = replay_dump(ctx, name, r, path, opts)
             fps |= f
+        small.result()
     ctx.cov["_extra_distinct"] = len(fps)
     for kk, (key, n) in sorted(ctx.__dict__.get("_c14_rest", {}).items()):
         for _ in range(n):                     # the remaining occurrences: counted, not described
             ctx.violation(key, "(further occurrence of %s)" % kk, replay=None)
 
-    # ---------------- coverage run: every builder action fires, all theorems (vacuity guard) ---------
-    r = ctx.tlc("Wiring", stage="mc/coverage", workers=2, count=False,
-                cfg_text=cfg(2, 2, 2, "DimsTwo", "DimsTwo", "AttrsOne", "FlipsBoth", variants=True),
-                args=("-deadlock", "-coverage", "1"))
-    ctx.require_actions(r, ["AddPort", "OpenSub", "CloseSub"], "mc/coverage")
-
-    # ---------------- mutants: seeded specification errors must violate the theorems ----------------
-    ctx.tlc("Wiring", stage="mutant/no_flip_into_dimensioned_sub", workers=2, count=False,
-            cfg_text=cfg(2, 2, 2, "DimsTwo", "DimsTwo", "AttrsOne", "FlipsNo", mutant="no_flip_into_dimensioned_sub",
-                         invariants=["FlipReverses"]),
-            args=("-deadlock",), expect_violation="FlipReverses")
-    ctx.tlc("Wiring", stage="mutant/first_argument_drives", workers=2, count=False,
-            cfg_text=cfg(1, 2, 1, "DimsTwo", "DimsNone", "AttrsOne", "FlipsNo", mutant="first_argument_drives",
-                         invariants=["PermInvariant"]),
-            args=("-deadlock",), expect_violation="PermInvariant")
-
     # ---------------- binding demonstration: a corrupted expectation must be rejected --------------
-    demo_ms = ({"name": "p", "flow": "In", "dims": (), "kind": "sig", "w": 0, "s": False, "init": 0,
-                "sub": {"fl": False, "ms": ({"name": "a", "flow": "In", "dims": (2,), "kind": "port", "w": 2, "s": True,
-                                             "init": 1, "sub": {"fl": False, "ms": ()}},)}},)
-    demo = _demo_expectation(ctx, demo_ms)
     good = test_state(demo_ms, demo, {"sim_all": True, "metadata": True})
     rejected = []
     if good.viol:
@@ -848,19 +863,6 @@ def run(ctx):
     ctx.assume("error messages are not compared; only ConnectionError vs normal return")
     ctx.assume("component metadata (jschon validation costs ~20 ms) is checked on a deterministic subset of the larger "
                "configurations")
-
-
-def _demo_expectation(ctx, ms):
-    """expectation for one tree, computed by TLC (constant-level evaluation of Expect)"""
-    text = ("---- MODULE WiringDemo ----\nEXTENDS Wiring\nDemo == %s\nASSUME PrintT(Expect(Demo))\n"
-            "DInit == stack = <<>> /\\ exp = Open\nDNext == UNCHANGED vars\n====\n" % tlaval.to_tla(_tla_ms(ms)))
-    c = cfg(2, 2, 2, "DimsTwo", "DimsTwo", "AttrsOne", "FlipsNo", invariants=[]).replace("SPECIFICATION Spec", "INIT DInit\nNEXT DNext")
-    r = ctx.tlc("WiringDemo", stage="binding-demo/expect", cfg_text=c, workers=1, count=False, extra_files={"WiringDemo.tla": text},
-                args=("-deadlock",))
-    vals = [v for v in r.printed() if v.lstrip().startswith("[") and "flatS" in v]
-    if not vals:
-        raise MachineryError("binding demo: TLC printed no expectation:\n" + r.out[-1500:])
-    return tlaval.parse(vals[0])
 
 
 def _tla_ms(ms):
